@@ -309,23 +309,28 @@ def oracle_c08(it, case, impl, model):
     # delete callbacks for cells that were never announced (placeholders of nodes still open when the
     # alternative was abandoned) are not constrained by the property.
     import collections
-    announced = collections.defaultdict(list)
+    created = collections.Counter()
+    deleted = collections.Counter()
     for ev in impl['log']:
         if ev[0] == 'c':
-            announced[ev[1]].append(ev[2])
+            created[ev[1]] += 1
         elif ev[0] == 'd':
-            lst = announced[ev[1]]
-            # wrappers inserted in front of a node inside the abandoned alternative shift its index upwards
-            cand = [i for i in lst if i <= ev[2]]
-            if cand:
-                lst.remove(max(cand))
+            deleted[ev[1]] += 1
     present = collections.Counter(n[1] for n in impl['nodes'] if n[0] == 0)
-    # no allowance for kinds that have no delete arm in the emitted delete_node: a node of such a kind that was
-    # announced and then discarded is exactly what the property forbids
-    diff = {k: (len(announced[k]), present[k]) for k in set(announced) | set(present) if len(announced[k]) != present[k]}
+    # created - deleted = present, per kind.  No allowance for kinds that have no delete arm in the emitted
+    # delete_node: a node of such a kind that was announced and then discarded is exactly what the property
+    # forbids.  Only for the Error kind a deleted callback may also refer to a cell that was never announced
+    # (the placeholder of a node that was still open when the alternative was abandoned carries that kind),
+    # which the property does not constrain: there created - deleted <= present <= created.
+    diff = {}
+    for k in set(created) | set(present) | set(deleted):
+        c, d_, p_ = created[k], deleted[k], present[k]
+        ok_k = (c - d_ <= p_ <= c) if k == 0 else (c - d_ == p_)
+        if not ok_k:
+            diff[k] = (c, d_, p_)
     if diff and 'return' not in it.setdefault('feats', grammar_features(it['res']['dump'])):
         tok_name, kind_name = names_of(pb)
-        return 'created-and-not-deleted callbacks do not match the nodes present: %s' % {kind_name.get(k, k): v for k, v in diff.items()}
+        return 'created / deleted callbacks do not match the nodes present (kind: created, deleted, present): %s' % {kind_name.get(k, k): v for k, v in diff.items()}
     ok, tree, acts = ref_parse(it, entry, toks, bits)
     quiet = not impl['diags']
     if ok != quiet:
